@@ -108,6 +108,8 @@ void hazard_eras<Traits>::guard_ptr<T, MarkedPtr>::acquire(const concurrent_ptr<
       }
       he->release_guard();
       he = nullptr;
+      // alloc_hazard_era may throw - do not keep a pointer that is no longer protected
+      this->ptr.reset();
     }
     assert(he == nullptr);
     he = local_thread_data().alloc_hazard_era(era);
